@@ -653,6 +653,44 @@ func corrC19(r *Run) {
 		d.DCS, d.UD = dcs, ud
 		c.deliver(d, "DCS sweep")
 	}
+	// ordered histories in fresh processes (sms_history.go): well-formed TPDUs of both types with every validity-period
+	// format, numeric / alphanumeric addresses, both zone signs - the decoded value and the re-encoding of each must be
+	// the same whatever the process decoded before
+	{
+		var hc []histItem
+		addD := func(l string, d specDeliver) { hc = append(hc, histItem{"deliver/" + l, specLayoutDeliver(d)}) }
+		addS := func(l string, x specSubmit) { hc = append(hc, histItem{"submit/" + l, specLayoutSubmit(x)}) }
+		d := c19BaseDeliver(g)
+		addD("numeric", d)
+		d2 := c19BaseDeliver(g)
+		d2.OA = c19Alnum(g, 5)
+		d2.SCTS = c19Time(g, -9)
+		addD("alphanumeric-negative-zone", d2)
+		d3 := c19BaseDeliver(g)
+		d3.SC, d3.OA = d.SC, d.OA                 // the same digits ...
+		d3.SC.TON, d3.OA.TON, d3.OA.NPI = 2, 0, 8 // ... under another type-of-address
+		addD("same-digits-other-type-of-address", d3)
+		for k := 0; k < 4; k++ {
+			x := c19BaseSubmit(g)
+			x.VP.Kind = k
+			switch k {
+			case 1:
+				x.VP.Enh = c19Enh(g, 3)
+			case 2:
+				x.VP.Rel = 144
+			case 3:
+				x.VP.Abs = c19Time(g, 4)
+			}
+			addS(fmt.Sprintf("vp-format-%d", k), x)
+		}
+		for f := 0; f < 3; f++ {
+			x := c19BaseSubmit(g)
+			x.VP = specVP{Kind: 1, Enh: c19Enh(g, f)}
+			x.DA = c19Alnum(g, 3+f)
+			addS(fmt.Sprintf("enhanced-vp-%d-alphanumeric", f), x)
+		}
+		smsHistories(r, hc, r.N(1, 10))
+	}
 	// random combinations of everything (mostly one unusual feature at a time)
 	for i := 0; i < r.N(230, 3300); i++ {
 		d := c19BaseDeliver(g)
